@@ -35,6 +35,7 @@ Descriptor shapes (all JSON-able)
   "$frozenset", "$tuple", "$exc".
 """
 import builtins
+import datetime
 import decimal
 import fractions
 import functools
@@ -48,6 +49,7 @@ import queue
 import re
 import threading
 import types
+import uuid
 
 import gen
 import impl
@@ -181,10 +183,38 @@ def obj_hook(v):
     if isinstance(v, (decimal.Decimal, fractions.Fraction, complex)):
         return (type(v).__name__, [("repr", str(v))])
     if isinstance(v, (bytes, bytearray)):
-        return None
+        # an instance for the model (no JSON form, not a JSON string): where Python treats bytes otherwise — falsy when
+        # empty, accepted as a method name by validate_request — parse_outcome declines the case (model_faithful)
+        return (type(v).__name__, [("hex", bytes(v).hex())])
+    if isinstance(v, (datetime.date, datetime.time, datetime.timedelta, uuid.UUID)):
+        return (type(v).__name__, [("repr", repr(v))])
     if isinstance(v, (RaisingSerialize, Bean, types.SimpleNamespace)):
         return (type(v).__name__, sorted(vars(v).items()))
     return None
+
+
+_JSON_LIKE = (type(None), bool, int, float, str, list, tuple, dict, set, frozenset)
+
+
+def model_faithful(v, depth=0):
+    """Does the model's reading of instances hold for this loaded request?  The server model assumes that instances of
+    translated classes are truthy and are not strings (harness assumption recorded in standard_run): a falsy instance
+    (b'', Decimal(0), timedelta(0)) anywhere, or bytes bound to a `method` member (bytes pass `isinstance(method,
+    STRING_TYPES)`), is outside it — such cases are run and judged by the monitors, not compared with the model."""
+    if depth > 60:
+        return True
+    if not isinstance(v, _JSON_LIKE):
+        try:
+            return bool(v)
+        except Exception:  # noqa: BLE001
+            return False
+    if isinstance(v, dict):
+        if isinstance(v.get("method"), (bytes, bytearray)):
+            return False
+        return all(model_faithful(k, depth + 1) and model_faithful(x, depth + 1) for k, x in v.items())
+    if isinstance(v, (list, tuple, set, frozenset)):
+        return all(model_faithful(x, depth + 1) for x in v)
+    return True
 
 
 def enc(v):
@@ -672,7 +702,7 @@ def strip_opaque_effects(effects, desc):
 def canon_effect_real(e, desc_sigs):
     try:
         return _canon_effect_real(e, desc_sigs)
-    except (UnicodeEncodeError, pyval.Unencodable):
+    except (UnicodeEncodeError, pyval.Unencodable, ValueError):
         # lone surrogates / foreign values: such cases are not compared with the model (the request is unencodable too)
         return "%s ?unencodable" % (e[0],)
 
@@ -759,7 +789,7 @@ def struct_key(v):
     """Type-strict comparable form of a JSON structure (1 != 1.0 != True)."""
     try:
         return pyval.enc(v, obj_hook, canon=True)
-    except (UnicodeEncodeError, pyval.Unencodable):
+    except (UnicodeEncodeError, pyval.Unencodable, ValueError):
         # lone surrogates / non-finite floats cannot travel on the line protocol: a Python-level strict form
         return "py:" + _strict_repr(v)
 
@@ -769,7 +799,10 @@ def _strict_repr(v):
         return "{" + ",".join(sorted("%s:%s" % (_strict_repr(k), _strict_repr(x)) for k, x in v.items())) + "}"
     if isinstance(v, (list, tuple)):
         return type(v).__name__ + "[" + ",".join(_strict_repr(x) for x in v) + "]"
-    return "%s(%s)" % (type(v).__name__, ascii(v))
+    try:
+        return "%s(%s)" % (type(v).__name__, ascii(v))
+    except ValueError:
+        return "%s(<beyond the int/str conversion limit>)" % type(v).__name__
 
 
 # --------------------------------------------------------------------------------------------
@@ -1148,9 +1181,12 @@ def parse_outcome(body, cfg):
     k, v = impl.outcome(jsonrpclib.loads, body, cfg)
     if k == "err":
         return "E", None
+    if not model_faithful(v):
+        return None, v
     try:
         return "P " + enc(v), v
-    except (pyval.Unencodable, RecursionError, UnicodeEncodeError):
+    except (pyval.Unencodable, RecursionError, UnicodeEncodeError, ValueError):
+        # ValueError: an integer beyond the int/str conversion limit (built by the class translator from a base-16 text)
         return None, v
 
 
@@ -1340,13 +1376,17 @@ def _ret_expect(v, uj, exp):
         exp["code"] = None
 
 
-def _beh_expect(beh, uj, exp):
+def _beh_expect(beh, uj, exp, params=None):
     ex = raised_exception(beh)
     if ex is not None:
         exp["code"] = -32603
         exp["exc"] = (type(ex).__name__, str(ex))
     elif beh[0] == "ret":
         _ret_expect(beh[1], uj, exp)
+    elif beh[0] == "echo" and not json_able(params):
+        # the dispatch function returns the arguments it was given, and the class translator made them values without JSON
+        # form (bytes, a set, ...): a result that cannot be sent — the texts fix the id and the count, not the code
+        exp["code"] = UNSPEC
     else:
         exp["code"] = None
 
@@ -1376,6 +1416,15 @@ def expect_entry(entry, desc, uj, observed=None):
     has_marker = "jsonrpc" in entry or "id" in entry
     method = entry.get("method")
     params = entry.get("params", [])
+    if isinstance(method, (bytes, bytearray)) and has_marker:
+        # a method name the class translator turned into bytes: neither a JSON string nor one of the non-string JSON types the
+        # texts list — not decided (nothing registered can be named by it: whatever runs is reported by the counters of C04)
+        exp["code"] = UNSPEC
+        exp["calls"] = None
+        if "id" not in entry or rid is None or (isinstance(rid, str) and rid == ""):
+            exp["notif"] = True
+            exp["answered"] = False
+        return exp
     if (not has_marker or not isinstance(method, str) or method == ""
             or not isinstance(params, (list, dict, tuple))):
         exp["code"] = -32600
@@ -1390,7 +1439,7 @@ def expect_entry(entry, desc, uj, observed=None):
     custom = desc.get("custom")
     if custom is not None:
         exp["calls"] = {("custom", method): 1}
-        _beh_expect(_pick(custom, method), uj, exp)
+        _beh_expect(_pick(custom, method), uj, exp, params)
         if exp["exc"]:
             exp["exc_fmt"] = "plain"
         return exp
@@ -1409,7 +1458,7 @@ def expect_entry(entry, desc, uj, observed=None):
             exp["calls"] = None
             return exp
         exp["calls"] = {("instDispatch", method): 1}
-        _beh_expect(beh, uj, exp)
+        _beh_expect(beh, uj, exp, params)
         if exp["exc"]:
             exp["exc_fmt"] = "plain"
         return exp
@@ -1634,10 +1683,18 @@ def monitor_post(r):
 # ---- C03 / C04 --------------------------------------------------------------------------------
 
 def monitor_c03(r):
-    if not case_domain(r) or r.parse_error or r.kind == "err":
+    if not case_domain(r) or r.parse_error:
         return None
     kind, exps = expected_entries(r)
     answered = [e for e in exps if e["answered"]]
+    if r.kind == "err":
+        # no reply at all: "exactly one response per non-notification entry" / "a batch that produces no response yields an
+        # empty body" cannot hold, whatever the ids were
+        if answered:
+            return "%d entries must be answered (ids %s), the dispatcher raised %s: %s instead of replying" % (
+                len(answered), ascii([e["id"] for e in answered])[:200], type(r.raw).__name__, str(r.raw)[:120])
+        return "no entry calls for a response: the body must be empty, the dispatcher raised %s: %s" % (
+            type(r.raw).__name__, str(r.raw)[:120])
     resp = responses_of(r)
     if resp is None:
         return None
@@ -1716,17 +1773,41 @@ def _code_ok(want, code):
     return code == want
 
 
+def _rfc_rejects(body):
+    import servercases_ext as sx
+    return body != "" and sx.rfc8259_accepts(body) is False
+
+
 def monitor_c05(r):
     if not case_domain(r):
         return None
     if r.kind == "err":
-        if r.parse_error:
+        if r.parse_error or _rfc_rejects(r.case["body"]):
             # "Malformed JSON (or a payload the class translator rejects) is answered with a single -32700 error"
             return "a body the parser/translator rejects was not answered with -32700: the dispatcher raised %s: %s" % (
                 type(r.raw).__name__, str(r.raw)[:120])
         return None
     resp = responses_of(r)
     if resp is None:
+        return None
+    # "Malformed JSON ... texts rejected by RFC 8259": judged by the recogniser of the harness (servercases_ext.rfc8259_accepts),
+    # not by what the parser under test made of the body.  The empty body is not a text at all: "no request data".
+    rejected = r.parse_error
+    why = "the parser/translator rejects the body"
+    if not rejected and r.case["body"] != "":
+        import servercases_ext as sx
+        if sx.rfc8259_accepts(r.case["body"]) is False:
+            rejected = True
+            why = "RFC 8259 rejects the body"
+    if rejected:
+        if r.reply[0] != "doc" or isinstance(r.reply[1], list):
+            return "%s: it must be answered with a single -32700 error object, the reply is %r" % (why, (r.raw or "")[:200])
+        d = r.reply[1]
+        code = d.get("error", {}).get("code") if isinstance(d, dict) and isinstance(d.get("error"), dict) else None
+        if code != -32700:
+            return "%s, answered with code %r: %r" % (why, code, (r.raw or "")[:200])
+        if r.log:
+            return "%s, yet something was invoked: %r" % (why, r.log[:2])
         return None
     if r.parse_error:
         if r.reply[0] != "doc" or isinstance(r.reply[1], list):
@@ -2052,6 +2133,11 @@ def std_cases(ctx, em):
             add(REGISTRIES["depth"], json.dumps([build_request("2.0", 1, "add", [1, 2]), build_request(rng.choice(["2.0", "absent"]), 2, m, []),
                                                  build_request("2.0", 3, "add", [3, 4])]), "unserialisable/batch", uj=uj,
                 post=rng.random() < 0.3)
+    # m) the input classes of harness/servercases_ext.py: values built by the class translator from builtin / standard-library
+    #    types (translated/…), ids that are arrays / objects (structid/…), one forbidden production of RFC 8259 applied to a valid
+    #    request (malformed/…, wellformed/…); scaled by em["translated"], em["structid"], em["malformed"] (absent: not generated)
+    import servercases_ext as sx
+    sx.extend_cases(ctx, em, rng, cases)
     return cases
 
 
@@ -2095,6 +2181,17 @@ def standard_run(ctx, pid, monitors, project, em, rule):
                   nontrivial_key=(r.case["kind"].split("/")[0], r.case["ver"], r.case["uj"], r.case["pool"], oc,
                                   "P" if not r.parse_error else "E") if oc != "empty" or r.log else None,
                   kind=r.case["kind"].split("/")[0] + "/" + ("raise" if r.kind == "err" else oc.split(",")[0][:12]))
+        hk = r.case.get("hist")
+        for k in ([hk] if isinstance(hk, str) else (hk or [])):
+            ctx.hist["class:" + k] += 1
+    if em.get("textlayer"):
+        import servercases_ext as sx
+        sx.text_layer_check(ctx, results)
+        ctx.assumptions.append(
+            "text layer: the request body is judged by the recogniser of the RFC 8259 grammar (JRV.Model.JsonText) — compared on every "
+            "body of the run with the parser the library really calls (jsonrpclib.jsonrpc.jloads; backend recorded as json_backend) "
+            "and with an independent recogniser in the harness; integers beyond the int/str conversion limit and nesting beyond "
+            "the parser's recursion limit (parse failures of RFC-valid texts) are not described")
     ctx.extra["unmodelled_cases"] = unmodelled
     ctx.extra["nondomain_cases"] = len([r for r in results if not case_domain(r)])
     ctx.assumptions.extend([
